@@ -4,8 +4,8 @@
    keywords order-insensitively, classes without their name. *)
 From Coq Require Import String Floats.SpecFloat.
 From Statham.Model Require Import Str Json Elem PyNum Validate Equality Sub.
-From Statham.Model Require Import Spec6 SerJson Plain SerFrag EqFrag ClsFrag Resolve.
-From Statham.Proofs Require Import JsonEqProof EqualityProof JsonCong C01Vm C01Parse C03Meaning C17Cong C03Classes C17Classes SerJsonProof.
+From Statham.Model Require Import Spec6 SerJson Plain SerFrag EqFrag ClsFrag Resolve RunSer DefsFrag.
+From Statham.Proofs Require Import JsonEqProof EqualityProof JsonCong C01Vm C01Parse C03Meaning C17Cong C03Classes C17Classes SerJsonProof C03DefsDoc.
 Local Open Scope string_scope.
 Local Open Scope list_scope.
 
@@ -128,3 +128,15 @@ Proof.
   split; [apply (goodcb_sound 20); vm_compute; reflexivity|].
   repeat split; vm_compute; reflexivity.
 Qed.
+
+(* ---- "replacing an element by a reference to an equal definition never changes meaning" ---------------
+   serialize_json with caller-supplied definitions does exactly that (_from_definitions): every sub-element
+   == to a definition becomes a reference to it.  The resolved document still accepts exactly what the tree
+   accepts (the statement is C03_meaning_definitions; it is a consequence of the congruence above). *)
+Theorem C17_reference_to_equal_definition : forall O cd classes fuel e,
+  cd_okb cd classes fuel e = true -> e <> ENothing ->
+  exists n0, forall n, n0 <= n ->
+    exists R, resolve_doc n (ser_doc cd e classes) = Some R /\
+              forall v, jwf v -> om (build O e (Some v)) (v6 O WCode R v).
+Proof. exact doc_meaning_defs. Qed.
+Print Assumptions C17_reference_to_equal_definition.
